@@ -737,6 +737,17 @@ def alphabet(elems):
 REC_POOLS = {0: [1, 2, 3, 4, 5], 1: [11, 12, 13], 2: [21, 22], 3: [31, 32], 4: [41], 5: [51, 52]}
 
 
+REC_PARENT = {1: 0, 2: 0, 4: 0, 5: 0, 3: 1}     # graph -> graph of the node that carries it
+
+
+def rnew_opts(e):
+    """["rnew", fwd] or ["rnew", fwd, {"stop": [nodes where recursive(node) is False] | None, "via": how}]
+    via: ctor (callbacks) | ctor_nocb | all_nodes | function_all_nodes (forward, no predicate, no callbacks) |
+         reversed_of (reversed(RecursiveGraphIterator(..., reverse=fwd))) | function (traversal of ir.Function)"""
+    o = e[2] if len(e) > 2 else {}
+    return bool(e[1]), o.get("stop"), o.get("via", "ctor")
+
+
 def rec_subs(x, fwd):
     if x == 1:
         return [1, 2]
@@ -771,16 +782,34 @@ class RecImpl:
         self.graphs[0] = G(0)
         self.back = {id(o): h for h, o in self.objs.items()}
         self.gback = {id(g): k for k, g in self.graphs.items()}
-        self.cbs = []           # callback trace of the current event: 2*gid = enter, 2*gid+1 = exit
+        self.func = ir.Function("d", "f", graph=self.graphs[0], attributes=[])
+        self.gback[id(self.func)] = 0          # callbacks of a traversal over the Function get the Function
+        self.cbs = []           # trace of the current event: 3*gid enter_graph, 3*gid+1 exit_graph, 3*node+2 recursive(node)
 
     def do(self, e):
         O, op = self.objs, e[0]
         self.cbs = []
         try:
             if op == "rnew":
-                self.iters.append(self.RGI(self.graphs[0], reverse=not e[1],
-                                           enter_graph=lambda g: self.cbs.append(2 * self.gback[id(g)]),
-                                           exit_graph=lambda g: self.cbs.append(2 * self.gback[id(g)] + 1)))
+                fwd, stop, via = rnew_opts(e)
+                kw = {}
+                if stop is not None:
+                    def pred(node, stop=frozenset(stop)):
+                        h = self.back[id(node)]
+                        self.cbs.append(3 * h + 2)
+                        return h not in stop
+                    kw["recursive"] = pred
+                if via in ("ctor", "reversed_of", "function"):
+                    kw["enter_graph"] = lambda g: self.cbs.append(3 * self.gback[id(g)])
+                    kw["exit_graph"] = lambda g: self.cbs.append(3 * self.gback[id(g)] + 1)
+                top = self.func if via in ("function", "function_all_nodes") else self.graphs[0]
+                if via in ("all_nodes", "function_all_nodes"):
+                    it = top.all_nodes()
+                elif via == "reversed_of":
+                    it = reversed(self.RGI(top, reverse=fwd, **kw))
+                else:
+                    it = self.RGI(top, reverse=not fwd, **kw)
+                self.iters.append(it)
                 return ("ok", None)
             if op == "fnew":
                 g = self.graphs[e[1]]
@@ -838,7 +867,10 @@ def oracle_rec(sched, obs):
     for t, (e, o) in enumerate(zip(sched["events"], obs)):
         op, res = e[0], tuple(o["res"])
         if op == "rnew":
-            iters.append(["rec", bool(e[1]), [[0, specs[0].new_cursor(bool(e[1])), []]]])
+            fwd_, stop_, via_ = rnew_opts(e)
+            iters.append(["rec", fwd_, [[0, specs[0].new_cursor(fwd_), []]],
+                          {"stop": stop_, "cb": via_ in ("ctor", "reversed_of", "function"), "open": [], "last": None,
+                           "asked": True, "started": False}])
         elif op == "fnew":
             iters.append(["flat", specs[e[1]].new_cursor(bool(e[2]))])
         elif op == "step":
@@ -860,6 +892,37 @@ def oracle_rec(sched, obs):
                     c.started, c.opt, c.anch, c.cur = True, [], True, x
                 continue
             fwd, stack = it[1], it[2]
+            info = it[3]
+            # ---- callbacks observed during this next(): balanced, properly nested, predicate asked once per node
+            for code in o.get("cbs", []):
+                k, z = code % 3, code // 3
+                if k == 2:
+                    if info["stop"] is None or info["asked"] or z != info["last"]:
+                        bad.append(f"{t}: recursive({z}) called; last yielded node {info['last']}, already asked={info['asked']}")
+                    info["asked"] = True
+                elif not info["cb"]:
+                    bad.append(f"{t}: callback {code} although none was installed")
+                elif k == 0:
+                    if not info["open"]:
+                        if z != 0 or info["started"]:
+                            bad.append(f"{t}: enter_graph({z}) with no graph open")
+                    elif info["open"][-1] not in (z, REC_PARENT.get(z)):
+                        bad.append(f"{t}: enter_graph({z}) while graph {info['open'][-1]} is open: not a subgraph of it")
+                    info["open"].append(z)
+                    info["started"] = True
+                else:
+                    if not info["open"] or info["open"][-1] != z:
+                        bad.append(f"{t}: exit_graph({z}) but the open graphs are {info['open']} (not properly nested)")
+                    else:
+                        info["open"].pop()
+            if info["stop"] is not None and info["last"] is not None and not info["asked"]:
+                bad.append(f"{t}: recursive({info['last']}) was not called when the iterator resumed")
+            if x is None:
+                if info["cb"] and info["open"]:
+                    bad.append(f"{t}: traversal ended with graphs still open {info['open']} (exit_graph missing)")
+                info["last"], info["asked"] = None, True
+            else:
+                info["last"], info["asked"] = x, False
             verdict = None
             while stack:
                 fr = stack[-1]
@@ -870,7 +933,7 @@ def oracle_rec(sched, obs):
                 c = fr[1]
                 if x is not None and c.accepts(x):
                     c.advance(x)
-                    fr[2] = list(rec_subs(x, fwd))
+                    fr[2] = [] if (info["stop"] is not None and x in info["stop"]) else list(rec_subs(x, fwd))
                     verdict = "ok"
                     break
                 if c.exhausted():
@@ -919,8 +982,18 @@ def gen_rec(rng, steps):
     while len(events) < steps:
         r = rng.random()
         if n < 3 and (n == 0 or r < 0.05):
-            events.append(["rnew", rng.random() < 0.6] if rng.random() < 0.8 else
-                          ["fnew", rng.choice(list(REC_POOLS)), rng.random() < 0.5])
+            if rng.random() < 0.8:
+                via = rng.choice(["ctor", "ctor", "ctor", "ctor_nocb", "all_nodes", "function_all_nodes",
+                                  "reversed_of", "function"])
+                if via in ("all_nodes", "function_all_nodes"):
+                    events.append(["rnew", True, {"stop": None, "via": via}])
+                else:
+                    stop = None
+                    if rng.random() < 0.5:
+                        stop = sorted(rng.sample([1, 2, 11, 3, 12, 21], rng.randrange(0, 4)))
+                    events.append(["rnew", rng.random() < 0.6, {"stop": stop, "via": via}])
+            else:
+                events.append(["fnew", rng.choice(list(REC_POOLS)), rng.random() < 0.5])
             n += 1
         elif r < 0.5:
             events.append(["step", rng.randrange(n)])
@@ -949,7 +1022,9 @@ def rec_case_term(sched, obs):
     for e, o in zip(sched["events"], obs):
         op = e[0]
         if op == "rnew":
-            ev = f"RNew {'true' if e[1] else 'false'}"
+            fwd_, stop_, via_ = rnew_opts(e)
+            ev = (f"RNew {'true' if fwd_ else 'false'} {'None' if stop_ is None else '(Some ' + _nl(stop_) + ')'} "
+                  f"{'true' if via_ in ('ctor', 'reversed_of', 'function') else 'false'}")
         elif op == "fnew":
             ev = f"FNew {e[1]} {'true' if e[2] else 'false'}"
         elif op == "step":
@@ -1250,7 +1325,10 @@ def run(ck) -> None:
     depth = 3 if not ck.thorough else 4
     elems = [1, 2, 3]
     tree_mism = []
-    for init, cursors in (([1, 2, 3], [True, False]), ([1, 2], [True, True]), ([2, 1, 3], [False, False])):
+    tree_scopes = [([1, 2, 3], [True, False]), ([1, 2], [True, True]), ([2, 1, 3], [False, False])]
+    if not ck.thorough:      # quick: two of the three configurations, chosen by the seed (all three in thorough)
+        tree_scopes = [tree_scopes[ck.seed % 3], tree_scopes[(ck.seed + 1) % 3]]
+    for init, cursors in tree_scopes:
         if HANGS >= 3:
             break
         files, n = tree_files(init, cursors, depth, elems)
@@ -1271,7 +1349,7 @@ def run(ck) -> None:
                                   "events": [["new", f] for f in cursors] + path_of(p, first, elems)})
     for s in tree_mism[:3]:
         ck.broken("correspondence:DoublyLinkedSet-model(exhaustive)", json.dumps(s))
-    scopes = [([1, 2, 3], [True, False], depth + 1, 25 if not ck.thorough else 480)]
+    scopes = [([1, 2, 3], [True, False], depth + 1, 15 if not ck.thorough else 480)]
     if ck.thorough:
         scopes += [([1, 2], [True, True], depth, 120), ([1, 2, 3], [False, False], depth, 120)]
     for init, cursors, d, budget in scopes:
